@@ -4,6 +4,9 @@ not_applicable list). Run after every change of checks.json."""
 import json, os, glob
 HOME = os.path.dirname(os.path.dirname(os.path.abspath(__file__)))
 cfg = {os.path.basename(f)[:-5]: json.load(open(f)) for f in glob.glob(os.path.join(HOME, "checks.d", "C*.json"))}
+# only checks the coordinator has validated on the unchanged tree are claimed
+claimed = set(open(os.path.join(HOME, "claimed.txt")).read().split())
+cfg = {k: v for k, v in cfg.items() if k in claimed}
 props = [json.loads(l) for l in open(os.path.join(HOME, "properties.jsonl"))]
 na_reasons = {}
 p = os.path.join(HOME, "not_applicable.json")
